@@ -30,4 +30,24 @@ theorem commandFound_generated (D : Desc) (s : St) :
   generalize s.chkUb s.cmd.isSome = s0
   cases h : s0.cmdType <;> simp only [h] <;> (repeat' split) <;> first | rfl | simp_all
 
+/-- T10: the output step of the command machine -/
+theorem processIoWrite_generated : processIoWrite = Gen.process_io_write := by
+  funext D s i
+  unfold processIoWrite Gen.process_io_write
+  simp only
+  generalize s.chk (writeByte D s .cmd).2 = s0
+  split
+  · (repeat' split) <;> rfl
+  · split <;> rfl
+
+/-- T10: the output step of the unsolicited machine -/
+theorem unsolicitedProcessIoWrite_generated : unsolicitedProcessIoWrite = Gen.unsolicited_process_io_write := by
+  funext D s i
+  unfold unsolicitedProcessIoWrite Gen.unsolicited_process_io_write
+  simp only
+  generalize s.chk (writeByte D s .uns).2 = s0
+  split
+  · (repeat' split) <;> rfl
+  · split <;> rfl
+
 end Cat
